@@ -138,17 +138,26 @@ void
 cu_iterator::move ()
 {
   assert (*this != end ());
-  do
+  while (true)
     {
       m_old_offset = m_offset;
       size_t hsize;
       if (dwarf_nextcu (m_dw, m_offset, &m_offset, &hsize,
 			nullptr, nullptr, nullptr) != 0)
-	done ();
-      else if (dwarf_offdie (m_dw, m_old_offset + hsize, &m_cudie) == nullptr)
+	{
+	  done ();
+	  return;
+	}
+
+      // A unit that ends right after its header has no DIE's at all.  The
+      // offset where its root would be is where the next unit starts, and
+      // asking for a DIE there yields a DIE of that next unit.
+      if (m_old_offset + hsize >= m_offset)
 	continue;
+
+      if (dwarf_offdie (m_dw, m_old_offset + hsize, &m_cudie) != nullptr)
+	return;
     }
-  while (false);
 }
 
 void
